@@ -53,6 +53,10 @@ const (
 	fSig = "sig" // all definitions are signal event definitions d0..d(n-1); non-matching = signal "nomatch"
 	fMix = "mix" // even labels are signals, odd labels are messages (so that EventDefinitions()
 	// order differs from label order); non-matching = MESSAGE event named like signal d0
+	fOp = "op" // all definitions are message event definitions of ONE message "m", told apart by
+	// their operationRef: label 1 names no operation, label i != 1 names "op<i>"; an event matches
+	// a definition iff message and operation agree (both absent, or equal); non-matching = message
+	// "m" with an operation no definition names (n=1: with no operation)
 )
 
 // satisfier is the common surface of the two real satisfiers.
@@ -78,6 +82,21 @@ func newFixture(kind string, n int, flavour string) *fixture {
 	var msgs []schema.MessageEventDefinition
 	for i := 0; i < n; i++ {
 		name := schema.QName(defName(i))
+		if flavour == fOp {
+			m := schema.QName("m")
+			d := schema.DefaultMessageEventDefinition()
+			d.SetMessageRef(&m)
+			var op *string
+			if i != 1 {
+				o := "op" + strconv.Itoa(i)
+				q := schema.QName(o)
+				d.SetOperationRef(&q)
+				op = &o
+			}
+			msgs = append(msgs, d)
+			f.events = append(f.events, event.NewMessageEvent("m", op))
+			continue
+		}
 		if flavour == fMix && i%2 == 1 {
 			d := schema.DefaultMessageEventDefinition()
 			d.SetMessageRef(&name)
@@ -90,7 +109,14 @@ func newFixture(kind string, n int, flavour string) *fixture {
 			f.events = append(f.events, event.NewSignalEvent(defName(i)))
 		}
 	}
-	if flavour == fMix {
+	if flavour == fOp {
+		if n == 1 {
+			f.events = append(f.events, event.NewMessageEvent("m", nil))
+		} else {
+			other := "other"
+			f.events = append(f.events, event.NewMessageEvent("m", &other))
+		}
+	} else if flavour == fMix {
 		// same name as signal definition d0 but the wrong event type: matches nothing
 		f.events = append(f.events, event.NewMessageEvent(defName(0), nil))
 	} else {
@@ -722,12 +748,15 @@ func Plains(tier string) []*rep.Plain {
 	var out []*rep.Plain
 	for _, kind := range []string{kParallel, kPlain, kThrow} {
 		for n := 1; n <= 4; n++ {
-			for _, fl := range []string{fSig, fMix} {
+			for _, fl := range []string{fSig, fMix, fOp} {
 				if fl == fMix && n < 2 {
 					continue
 				}
 				kind, n, fl := kind, n, fl
 				maxLen, _ := Bounds(tier, n)
+				if fl == fOp && maxLen > 7 {
+					maxLen = 7 // the matching rule is per event: short histories suffice for it
+				}
 				w := 2*maxLen*pow(n+1, maxLen)/200000 + 1
 				out = append(out, &rep.Plain{
 					Name:   fmt.Sprintf("enum/%s/n%d/%s/len<=%d", kind, n, fl, maxLen),
